@@ -347,10 +347,50 @@ class Driver:
             arg = (arg[0], "after_flush" if arg[0] == -1 else "cursor")
         else:
             arg = None
-        ret = self.real.do(a, arg)
+        if a == "FailRedo":
+            ret = self.fail_redo(frm, act["arg"][0])
+        else:
+            ret = self.real.do(a, arg)
         if ret != act["ret"]:
             return "call outcome %r, spec %r (warnings %r)" % (ret, act["ret"], self.real.warned)
         return self.compare(act)
+
+    def fail_redo(self, frm, k):
+        """C32 composite: flush with an injected fault, roll the innermost scope back, repeat the same work
+        (attribute changes, add() in the original order, delete()), flush.  Events and statements accumulate."""
+        r = self.real
+        nohist = -2
+        inmap = lambda o: frm["key"][o] != 0 and frm["imap"][frm["key"][o] - 1] == o     # noqa
+        dirty = [o for o in sorted(frm["life"]) if inmap(o) and frm["mod"][o] and o not in frm["sdel"]]
+        evs, nsql, stmts = [], 0, []
+
+        def do(a, arg=None):
+            nonlocal nsql
+            ret = r.do(a, arg)
+            evs.extend(r.events)
+            nsql += r.nsql
+            stmts.extend(r.stmts)
+            return ret
+        rets = [do("FlushFail", (k, "after_flush" if k == -1 else "cursor"))]
+        rets.append(do("SpRollback" if frm["tx"] and len(frm["tx"]) > 1 else "Rollback"))
+        work = "ok"
+        for o in dirty:
+            if work != "ok":
+                break
+            if "id" not in frm["exp"][o] and frm["pk"][o] != frm["key"][o]:
+                work = do("SetPk", (o, frm["pk"][o]))
+            if work == "ok" and frm["cv"][o] != nohist and "v" not in frm["exp"][o]:
+                work = do("SetV", (o, frm["v"][o]))
+        for o in frm["new"]:
+            if work == "ok":
+                work = do("Add", o)
+        for o in sorted(frm["life"]):
+            if work == "ok" and o in frm["sdel"]:
+                work = do("Delete", o)
+        rets.append(work)
+        rets.append(do("Flush") if work == "ok" else work)
+        r.events, r.nsql, r.stmts = evs, nsql, stmts
+        return rets
 
     def compare(self, act):
         o = act["obs"]
